@@ -32,13 +32,13 @@ structure ReloadFacts (P : Params V) (d0 d d' : Doc V) (i : SaveInfo) (t : List 
       ∀ c, sameRd (resolve (reloaded d'.st t c) j) (resolve d0.st j)
 
 /-- the table rebuilt from the saved bytes and what it makes every number read as -/
-theorem reload_table_facts (P : Params V) (L : Layout) (hL : L.Pos) (d0 d d' : Doc V) (chain0) (i : SaveInfo)
-    (hb : BaseOK d0 chain0) (hi : Inv d0 d) (h : save P L d = (d', .ok i)) :
+theorem reload_table_facts_c (P : Params V) (L : Layout) (hL : L.Pos) (d0 d d' : Doc V) (chain0) (i : SaveInfo)
+    (hb : BaseOK d0 chain0) (hi : Inv d0 d) (h : Committed P L d d'.st i) (htr : d'.tr = d.tr) :
     ∃ t, mergeAll (newTable (prep d).size) ([⟨0, i.rows⟩] :: chain0) = .ok t ∧ ReloadFacts P d0 d d' i t := by
   have pf := prep_facts d0 d chain0 hb hi
-  have hi' := inv_save_ok P L hL d0 d d' chain0 i hb hi h
-  obtain ⟨w, rows, hw, hr, hst, hl, _, _, _, hrows, hsize⟩ := save_ok_spec P L d d' i h
-  have hinfo := (save_ok_info P L d d' i h w rows hw hr).symm
+  have hi' := inv_committed P L hL d0 d d' chain0 i hb hi h htr
+  obtain ⟨w, rows, hw, hr, hst, hl, _, _, _, hrows, hsize⟩ := h.spec'
+  have hinfo := (h.info w rows hw hr).symm
   subst hrows
   obtain ⟨f1, f2, f3, _⟩ := writeChanges_frame P L _ _ _ _ _ hw pf.inv.sorted
   obtain ⟨k1, ⟨ext, k2, k3⟩, k4, k5⟩ := writeChanges_ok P L _ hL.1 _ _ _ hw pf.inv.sorted pf.inv.objs_lt
@@ -147,6 +147,11 @@ theorem reload_table_facts (P : Params V) (L : Layout) (hL : L.Pos) (d0 d d' : D
 
 theorem trailer_ext (a b : Trailer V) (h1 : a.root = b.root) (h2 : a.info = b.info) (h3 : a.prev = b.prev) : a = b := by
   cases a; cases b; simp_all
+
+theorem reload_table_facts (P : Params V) (L : Layout) (hL : L.Pos) (d0 d d' : Doc V) (chain0) (i : SaveInfo)
+    (hb : BaseOK d0 chain0) (hi : Inv d0 d) (h : save P L d = (d', .ok i)) :
+    ∃ t, mergeAll (newTable (prep d).size) ([⟨0, i.rows⟩] :: chain0) = .ok t ∧ ReloadFacts P d0 d d' i t :=
+  reload_table_facts_c P L hL d0 d d' chain0 i hb hi (committed_of_ok P L d d' i h) (save_tr_eq P L d0 d d' chain0 i hb hi h)
 
 /-- **the saved bytes load again**, with the table of `reload_table_facts` and the same trailer -/
 theorem reload_after_save (P : Params V) (L : Layout) (hL : L.Pos) (d0 d d' : Doc V) (chain0) (i : SaveInfo)
